@@ -33,21 +33,23 @@ Definition phi (s : State) : Z :=
   end.
 
 (** * C09 / C10: authorisation, stated without reference to the handlers *)
-(* key [k] is a key of DID [d]: the key of a did:key, or listed in a key document that is
-   in the sid DID's own version history *)
-Definition key_of (s : State) (d : string) (so : SigO) (k : string) : Prop :=
-  match so_owner so with
-  | Some (m, id) =>
-      (m = "key" /\ k = id) \/
-      (m = "sid" /\ exists v keys, is_version_of (did s) id v = true /\ d_doc (did s) !! v = Some keys /\
-                                   exists nm, In (nm, k) keys)
-  | None => False
-  end.
+(* key [k] is a key of DID [d]: the key a did:key names, or a key listed in a key document
+   that is in the sid DID's own version history *)
+Definition key_of (s : State) (d k : string) : Prop :=
+  d = "did:key:" +:+ k \/
+  exists root v keys nm, d = "did:sid:" +:+ root /\ is_version_of (did s) root v = true /\
+                         d_doc (did s) !! v = Some keys /\ In (nm, k) keys.
 
-(* the request verifies under a key of [owner] and its header names [owner] *)
+(* the request verifies (over exactly the delivered proposal bytes: that is what [so_keys]
+   records) under a key of [owner], and its header names [owner] *)
 Definition signed_by (s : State) (owner : string) (so : SigO) : Prop :=
   (exists m id q, so_kid so = Some (m, id, q) /\ "did:" +:+ m +:+ ":" +:+ id = owner) /\
-  exists k, In k (so_keys so) /\ key_of s owner so k.
+  exists k, In k (so_keys so) /\ key_of s owner k.
+
+(* what is assumed of the URL parser oracle for the owner string (checked at run time on
+   every generated operation) *)
+Definition sig_sane (owner : string) (so : SigO) : Prop :=
+  forall m id, so_owner so = Some (m, id) -> owner = "did:" +:+ m +:+ ":" +:+ id.
 
 Definition may_admin (m : Meta) (d : string) : Prop := m_owner m = d.
 Definition may_write (m : Meta) (d : string) : Prop := m_owner m = d \/ In d (m_rw m).
@@ -55,6 +57,14 @@ Definition may_write (m : Meta) (d : string) : Prop := m_owner m = d \/ In d (m_
 (* the projection of the state a data model consists of *)
 Definition model_view (s : State) : gmap string Meta * gmap string string * gmap Z (list string) :=
   (metas s, models s, expdata s).
+
+(* operations that can change a data model at all *)
+Definition touches_models (op : Op) : bool :=
+  match op with
+  | OStore _ | OComplete _ _ _ _ _ _ | OCancel _ _ _ | ORenew _ | OTerminate _ _ _ _ _
+  | OUpdatePermission _ _ _ _ _ _ _ _ | OEndBlock _ => true
+  | _ => false
+  end.
 
 (** * C20: the conditions of the super role *)
 Definition super_ok (s : State) (addr : string) (n : Node) : Prop :=
